@@ -976,8 +976,15 @@ def designs(draw, **kw):
       for j in range(draw(st.integers(1, 3))):
         t = ["b", W(draw, opts)]
         if opts["structs"] is True and draw(st.integers(0, 3)) == 0: t = small_struct(draw)
-        members.append([draw(st.sampled_from(["msg", "val", "rdy", "en", "ret", "data"])) + str(j),
-                        draw(st.sampled_from(["in", "out"])), t])
+        mname = draw(st.sampled_from(["msg", "val", "rdy", "en", "ret", "data"])) + str(j)
+        mdir = draw(st.sampled_from(["in", "out"]))
+        if opts["lists"] and draw(st.integers(0, 3)) == 0:
+          # the member is a list of ports: s.msg1 = [ InPort( T ) for _ in range(n) ] (n differs from the usual list
+          # lengths of interfaces, so that swapped dimensions show)
+          for i in range(draw(st.sampled_from([2, 3, 3, 4]))):
+            members.append([f"{mname}[{i}]", mdir, t])
+        else:
+          members.append([mname, mdir, t])
       ifc_pool[f"Ifc{k}"] = members
   # leaf classes first, then classes that may instantiate earlier ones
   levels = draw(st.integers(min(opts["min_depth"], opts["max_depth"]), opts["max_depth"]))
@@ -1034,6 +1041,7 @@ def features(design):
     if any("[" in i for i, _ in c["children"]): out.add("has_list_of_components")
     if c.get("ifc_insts"): out.add("has_interface")
     if any("[" in a for a, _ in c.get("ifc_insts", [])): out.add("has_list_of_interfaces")
+    if any("." in n and n.endswith("]") for n, _, _ in c["ports"]): out.add("has_interface_with_port_list")
     if any(b.get("lambda") for b in c["blocks"]): out.add("has_lambda_connection")
     if c.get("funcs"): out.add("has_helper_function")
     if any(b["kind"] == "ff" and '"inst": "' in __import__("json").dumps(b["stmts"]).replace('"inst": ""', "") for b in c["blocks"]): out.add("has_child_input_register")
